@@ -50,6 +50,7 @@ def apply_dense(op, DA, DB):
 def run(chk):
     chk.assumptions += [
         "model = hand-written Gallina mirror of ops.py and of self_add/self_mul/gram in core.py, tied by exact-integer correspondence",
+        "qsm_mul is modelled twice: branch by branch like the Python (qsm_mul), and in a uniform form where a missing part is a part of order 0 (qsm_mul_u, about which mul_sound / gram_sound are proved); both are compared with the implementation on every case",
         "inputs are small integers so + - * are exact in binary64 on both sides; equality is bit for bit",
     ]
     proof_ok = chk.prove()
@@ -85,6 +86,9 @@ def run(chk):
                     meta, dense = impl_show(R)
                     exprs.append(f"qshow K ({COQ_OP[op]} {gen.qsm_coq(sa)} {gen.qsm_coq(sb)})")
                     expect.append((case, meta, dense))
+                    if op == "matmul":   # the uniform form of qsm_mul, about which mul_sound is proved
+                        exprs.append(f"qshow K (qsm_mul_u K {gen.qsm_coq(sa)} {gen.qsm_coq(sb)})")
+                        expect.append((dict(case, model="qsm_mul_u"), meta, dense))
                     want = apply_dense(op, DA, DB)
                     if R is not None:
                         if not np.array_equal(dense.reshape(n, n), want):
@@ -121,6 +125,8 @@ def run(chk):
             case = dict(op="gram", a=gen.spec_json(sa))
             exprs.append(f"qshow K (qgram K {gen.qsm_coq(sa)})")
             expect.append((case, meta, dense))
+            exprs.append(f"qshow K (qgram_u K {gen.qsm_coq(sa)})")
+            expect.append((dict(case, model="qgram_u"), meta, dense))
             hist["gram"] = hist.get("gram", 0) + 1
             if not np.array_equal(dense.reshape(n, n), DA.T @ DA) or meta[1] != KIDX["Symm"]:
                 oracle_bad.append(dict(case, expected=(DA.T @ DA).tolist(), observed=dense.reshape(n, n).tolist(),
@@ -148,6 +154,9 @@ def run(chk):
             exprs.append(f"qshow K ({COQ_OP[op]} {gen.qsm_coq(s1)} {gen.qsm_coq(s2)})")
             meta, dense = impl_show(R)
             expect.append((dict(op="tree:" + op, a=gen.spec_json(s1), b=gen.spec_json(s2)), meta, dense))
+            if op == "matmul":
+                exprs.append(f"qshow K (qsm_mul_u K {gen.qsm_coq(s1)} {gen.qsm_coq(s2)})")
+                expect.append((dict(op="tree:" + op, model="qsm_mul_u", a=gen.spec_json(s1), b=gen.spec_json(s2)), meta, dense))
             if not np.array_equal(got, want):
                 oracle_bad.append(dict(op="tree:" + op, a=gen.spec_json(s1), b=gen.spec_json(s2),
                                        expected=want.tolist(), observed=got.tolist()))
